@@ -534,24 +534,29 @@ class SimpleFormula(
         evaluation context rather than the data context.
         """
 
-        variables: list[Variable] = [
-            variable
-            for term in self.__terms
-            for factor in term.factors
-            for variable in get_expression_variables(factor.expr, {})
-            if "value" in variable.roles
-        ]
-
-        # Filter out constants like `contr` that are already present in the
-        # TRANSFORMS namespace.
+        from formulaic.parser.types import Factor
         from formulaic.transforms import TRANSFORMS
+        from formulaic.utils.code import sanitize_variable_names
 
-        return set(
-            filter(
-                lambda variable: variable.split(".", 1)[0] not in TRANSFORMS,
-                Variable.union(variables),
-            )
-        )
+        variables: list[Variable] = []
+        for term in self.__terms:
+            for factor in term.factors:
+                if factor.eval_method is Factor.EvalMethod.LOOKUP:
+                    # The expression *is* the (possibly non-identifier) name.
+                    variables.append(Variable(factor.expr, roles=("value",)))
+                elif factor.eval_method is Factor.EvalMethod.PYTHON:
+                    aliases: dict[str, str] = {}
+                    expr = sanitize_variable_names(factor.expr, {}, aliases)
+                    variables.extend(
+                        variable
+                        for variable in get_expression_variables(expr, {}, aliases)
+                        if "value" in variable.roles
+                        # Filter out constants like `contr` that are already
+                        # present in the TRANSFORMS namespace.
+                        and variable.split(".", 1)[0] not in TRANSFORMS
+                    )
+
+        return Variable.union(variables)
 
     def __repr__(self) -> str:
         return " + ".join([str(t) for t in self.__terms])
